@@ -1684,6 +1684,8 @@ def __analyse_method(
         or __should_skip_by_visibility(method_name.rpartition(".")[2], add_to_test=add_to_test)
         or __is_constructor(method_name)
         or not __is_method_defined_in_class(type_info.raw_type, method)
+        # The blacklist of ignored methods holds for methods of classes, too.
+        or f"{method.__module__}.{method.__qualname__}" in config.configuration.ignore_methods
     ):
         LOGGER.debug("Skipping method %s from analysis", method_name)
         return
